@@ -13,13 +13,14 @@ import (
 )
 
 // NumSteps is the number of distinct chain elements.
-const NumSteps = 16 + long.N + uni.N + 3
+const NumSteps = 16 + long.N + uni.N + 3 + 3
 
 // Names describes the chain elements (for evidence samples).
 var Names = [...]string{"c.F", "c.T.M", "c.(*T).PM", "c.G[int]", "c.G[string]", "c.Inl", "c.Closure", "v2.F", "v2.Long.method", "v2.G[int,string]", "ted.F", "ted.S.M", "c.FG>G[float64]", "c.GF[int]>F", "c.FBox>(*Box[string]).M>F", "c.GG[int]>GF[[]int]>F",
 	"long.00", "long.01", "long.02", "long.03", "long.04", "long.05", "long.06", "long.07", "long.08", "long.09", "long.10", "long.11",
 	"uni.2byte", "uni.3byte", "uni.mixed",
-	"v2.Deep(60)", "v2.Deep(150)", "v2.Deep(230)"}
+	"v2.Deep(60)", "v2.Deep(150)", "v2.Deep(230)",
+	"c.Via>c.F", "c.Via>v2.F", "c.Via>ted.F"}
 
 // Run executes the chain from position i and finally calls leaf.
 func Run(chain []int, i int, leaf func()) {
@@ -65,7 +66,13 @@ func Run(chain []int, i int, leaf func()) {
 		long.Call(chain[i]-16, next)
 	case 16 + long.N, 16 + long.N + 1, 16 + long.N + 2:
 		uni.Call(chain[i]-16-long.N, next)
-	default:
+	case 16 + long.N + uni.N, 16 + long.N + uni.N + 1, 16 + long.N + uni.N + 2:
 		v2.Deep([]int{60, 150, 230}[chain[i]-16-long.N-uni.N], next)
+	case 16 + long.N + uni.N + 3:
+		c.Via(c.F, next)
+	case 16 + long.N + uni.N + 4:
+		c.Via(v2.F, next)
+	default:
+		c.Via(ted.F, next)
 	}
 }
